@@ -56,7 +56,7 @@ fn case(tier: Tier, case_no: usize, rng: &mut Rng, rep: &mut Report) {
         let step = 10f64.powi(-pg);
         let vehicle = ["ice", "bev", "phev"][rng.below(3)].to_string();
         let grades: Vec<f64> = (0..ne).map(|_| (rng.below(9) as f64 - 4.0) * step).collect();
-        spec.energy = Some(EnergySpec { vehicle: vehicle.clone(), grades, cache: rng.chance(0.8), capacity_kwh: rng.frange(0.5, 60.0), cache_cfg: (*rng.pick(&[2usize, 8, 64]), *rng.pick(&[1i32, 2, 3]), pg) });
+        spec.energy = Some(EnergySpec { vehicle: vehicle.clone(), grades, cache: rng.chance(0.8), capacity_kwh: rng.frange(0.5, 60.0), cache_cfg: (*rng.pick(&[2usize, 8, 64]), *rng.pick(&[1i32, 2, 3]), pg), adjustment: if rng.chance(0.5) { Some((rng.frange(0.8, 1.6) * 100.0).round() / 100.0) } else { None } });
         spec.world.access = crate::world::AccessCfg::None;
         let e = if vehicle == "ice" { "energy_liquid" } else { "energy_electric" };
         spec.world.cost.weights.push((e.to_string(), 1.0));
